@@ -50,6 +50,10 @@ fn main() {
     let profile = if cfg!(debug_assertions) { "relassert" } else { "release" };
     let ctx = Ctx { prop: prop.clone(), tier, seed, shard, nshards, profile: profile.to_string(), budget_s: budget, start: Instant::now(), replay, scale };
     let mut out = Out::default();
+    // CPU-time watchdog (see common::hang): generous; one guarded call on these small inputs takes
+    // milliseconds to seconds (tens of seconds with debug assertions in D >= 4)
+    let cpu_limit = if tier == Tier::Thorough { 1500.0 } else { 400.0 };
+    dverif::common::hang::start(outp.clone(), prop.clone(), cpu_limit);
     delaunay::verif::ticks_enable(true);
     if !dverif::props::run(&ctx, &mut out) {
         eprintln!("unknown property {}", prop);
